@@ -13,10 +13,12 @@
                     - behave like G_prog under the reference semantics Exec/Sem.v from the given states
                       (same addresses visited, same states, same outcome),
                     - (harness-side, differential) agree with the toy interpreter under executor::Driver.
-   tie (fst)    : model = observed when the Recover model is available for the case (see Lift/Recover.v);
-                  otherwise true. *)
+   tie (fst)    : Lift/Recover.v (the Gallina transcription of translate_function_extended WITHOUT its final merge),
+                  run on the table of block translations the harness recorded, against the observed function:
+                  same language (lang_bisim; merge preserves the language -- C15), same multiset of items, same
+                  address; or the same error. *)
 From Coq Require Import ZArith List Bool NArith.
-From Falcon Require Import Base.Res IL.Const IL.Expr IL.Func IL.Loc Exec.Sem Lift.Lang.
+From Falcon Require Import Base.Res IL.Const IL.Expr IL.Func IL.Loc Exec.Sem Lift.Lang Lift.Recover.
 Import ListNotations.
 Local Open Scope Z_scope.
 
@@ -273,11 +275,12 @@ Definition sem_holds (s : sstate) (c : option expr) : bool :=
 Inductive case :=
 | KRec (fa : Z) (items : list pinstr) (manual : list medge) (inits : list senv)
        (drv_ok : bool)                       (* harness: executor::Driver trace = toy interpreter trace *)
+       (tb : tbtable)                        (* harness: block address -> result of get_bytes + translate_block *)
        (obs : res func).
 
 Definition oracle_parts (k : case) : list bool :=
   match k with
-  | KRec fa items ms inits drv obs =>
+  | KRec fa items ms inits drv _ obs =>
       match gprog fa items ms with
       | None => [false]
       | Some gp =>
@@ -294,4 +297,16 @@ Definition oracle_parts (k : case) : list bool :=
       end
   end.
 
-Definition ck (k : case) : bool * bool := (true, forallb (fun b => b) (oracle_parts k)).
+Definition tie (k : case) : bool :=
+  match k with
+  | KRec fa _ ms _ _ tb obs =>
+      match recover tb fa (map (fun m => mkmm (me_head m) (me_tail m) (me_cond m)) ms), obs with
+      | Ok m, Ok f => lang_bisim (f_cfg m) (f_cfg f) && multiset_eqb (all_items (f_cfg m)) (all_items (f_cfg f)) &&
+                      (f_addr m =? f_addr f)
+      | Err e, Err e' => err_eqb e e'
+      | Panic, Panic => true
+      | _, _ => false
+      end
+  end.
+
+Definition ck (k : case) : bool * bool := (tie k, forallb (fun b => b) (oracle_parts k)).
